@@ -98,6 +98,8 @@ def _seeded(prop):
             m = json.load(open(meta_p))
         except Exception:
             continue
+        if m.get("retired"):
+            continue          # a later repair of /repo rewrote the lines the change edits
         det = m.get("detected_by", "")
         props = {x.split("[")[0] for x in det.split() if "ANALYSIS-ERROR" not in x}
         if prop in props or m.get("breaks_property") == prop:
